@@ -35,7 +35,7 @@ theorem be32_inj {a b : UInt32} (h : be32 a = be32 b) : a = b := by
 theorem toBA_inj {a b : Bytes} (h : toBA a = toBA b) : a = b := by
   unfold toBA at h
   have h2 : a.toArray = b.toArray := by injection h
-  exact List.toArray_inj.mp h2
+  simpa using congrArg Array.toList h2
 
 /-- equal ids come from equal hashed byte strings, or the two byte strings are a SHA-256 collision -/
 theorem id_eq_cases {p q : Bytes} (h : idOfPre p = idOfPre q) : p = q ∨ Collision := by
@@ -148,23 +148,25 @@ theorem foldl_createOne (h : String) (s : State) (msgs : List Msg) :
       simp [UInt32.toNat_add, UInt32.toNat_ofNat']
       omega
 
+theorem stepTx_ok {s s' : State} {h : String} {msgs : List Msg} (hst : stepTx s h msgs = .ok s') :
+    s' = msgs.foldl (createOne h) s := by
+  unfold stepTx at hst
+  split at hst; · cases hst
+  split at hst; · cases hst
+  cases hst; rfl
+
 theorem apply_recs (s : State) (op : Op) :
     (apply s op).recs = replayOn s.recs (opEntries s op) ∧
     (apply s op).counter = s.counter + UInt32.ofNat (opEntries s op).length := by
   cases op with
   | tx b msgs =>
-    unfold apply opEntries step
+    simp only [apply, opEntries, step]
     cases hst : stepTx s (txHashOf b) msgs with
     | error e => simp [replayOn]
     | ok s' =>
       simp only
-      unfold stepTx at hst
-      split at hst; · cases hst
-      split at hst; · cases hst
-      cases hst
-      have := foldl_createOne (txHashOf b) s msgs
-      rw [txEntries_length]
-      exact this
+      rw [stepTx_ok hst, txEntries_length]
+      exact foldl_createOne (txHashOf b) s msgs
   | query id => simp [apply, step, opEntries, replayOn]
   | queryAll => simp [apply, step, opEntries, replayOn]
   | nextBlock => simp [apply, step, opEntries, replayOn]
@@ -172,7 +174,7 @@ theorem apply_recs (s : State) (op : Op) :
 theorem wf_opEntries (s : State) (op : Op) : WF s.counter.toNat (opEntries s op) := by
   cases op with
   | tx b msgs =>
-    unfold opEntries
+    simp only [opEntries]
     split
     · have := wf_txEntries (txHashOf b) s.counter.toNat msgs
       rwa [UInt32.ofNat_toNat] at this
